@@ -25,7 +25,7 @@ META = {
     "level": "exploration",
     "technique": "differential monitor: real fetch() vs strict three-valued response reader over generated streams x segmentations x client options on a virtual-time loop",
     "level_text": "Grammar-generated valid and near-valid HTTP/1.x response streams (CL / chunked / close-delimited, 1xx interim, 204/304/HEAD, gzip valid/truncated/corrupt/bomb) are served by a harness-owned unix-socket origin under several server segmentations and client read plans; the HTTPResponse (or Σ streaming chunks) returned by the real SimpleAsyncHTTPClient is compared with what an independent strict reader extracts; rejection, completion (by virtual-loop quiescence), max_body_size and uncaught-exception logs are monitored.",
-    "level_note": "Trusts vf/refs/http.py (strict reader) and zlib. Verdicts accept-vs-reject are taken only for classes pinned by RFC 9112/9110; obs-fold, bare LF/CR, chunk extensions, trailers, header-character leniency, duplicate equal Content-Length, CL on 1xx/204, 101, multi-member / trailing-garbage gzip are executed and counted but not gated. TLS and curl_httpclient are not exercised.",
+    "level_note": "Trusts vf/refs/http.py (strict reader) and zlib. Accept-vs-reject verdicts are taken only for classes pinned by RFC 9112/9110; obs-fold, bare LF/CR, chunk extensions, trailers, header-character leniency, whitespace before the colon, leading empty lines, status line without SP, chunked in HTTP/1.0, duplicate equal Content-Length, CL or TE on 1xx/204, 101, trailing garbage after a gzip member are executed and counted but not gated (safety half only: completes once, size limit, no uncaught log, same outcome under every segmentation). TLS and curl_httpclient are not exercised.",
     "design_ref": "DESIGN.md §4 C08",
     "engine": "oracle",
 }
@@ -34,7 +34,7 @@ RULE = ("a case = (method, response byte stream from the grammar: 0-2 interim 1x
         "truncation/extra bytes) executed under 3-4 (thorough 5-6) configurations of server segmentation x client read "
         "plan x streaming x decompress x max_body_size x timeouts; non-trivial = the stream carries a body, an interim "
         "response or a mutation; distinct by (method, stream bytes, eof mode)")
-FLOORS = {"quick": 1500, "thorough": 40000}
+FLOORS = {"quick": 1500, "thorough": 60000}
 ASSUMPTIONS = [
     "the strict reader vf/refs/http.py implements RFC 9112 section 6 framing correctly",
     "AF_UNIX delivery is synchronous, so virtual-time jumps cannot overtake bytes in flight",
@@ -49,8 +49,8 @@ BIG = 104857600
 
 def shards(tier, seed):
     if tier == "quick":
-        return [{"n": 110} for _ in range(32)]
-    return [{"n": 1700} for _ in range(48)]
+        return [{"n": 220} for _ in range(16)]
+    return [{"n": 2500} for _ in range(48)]
 
 
 # ------------------------------------------------------------------ generator
@@ -124,7 +124,7 @@ def render_chunked(rng, body, mut):
         txt = format(n, rng.choice(["x", "X"])).encode()
         if mut == "chunk_upper_zeros":
             txt = b"000" + format(n, "X").encode()
-        if k == min(bad_at, 0 if len(body) - pos == n else bad_at):
+        if k == bad_at or (len(body) - pos == n and k < bad_at):  # the chosen chunk, or the last one if there are fewer
             if mut == "chunk_bad_hex":
                 txt = rng.choice([b"g", b"1g", b"zz"])
             elif mut == "chunk_neg":
@@ -829,14 +829,6 @@ def judge(case, c, exp, out, chunks, rec, ctx):
         else:
             ctx.count("reject_err")
         return
-    if False:
-        got = None
-        if got != exp.body:
-            ctx.violation("gzip/multi-member-body-not-fully-decoded",
-                          "a gzip body consisting of several members (RFC 1952 2.2) is not decoded completely: the "
-                          "members after the first are dropped silently, or the response fails, depending on segmentation",
-                          dict(wit, outcome=out[0], got_len=None if got is None else len(got), want_len=len(exp.body)))
-            return
     if out[0] == "err":
         if exp.cls == "either":
             ctx.count("either_rejected")
